@@ -363,6 +363,21 @@ pub fn c12(args: &[String]) -> i32 {
                     _ => { let a = one(&mut g); (vec![format!("{a} > {o} / _ {gl}")], vec![format!("{a} > {o} / _ {mx}")], "group") }
                 }
             }
+            3 if g.rng.chance(1, 4) => { // bounded optional with a non-zero minimum on crafted runs of k distinct consonants, k around the bounds
+                let (m, nmax) = [(1usize, 2usize), (1, 3), (2, 4), (2, 3), (1, 1), (3, 4)][g.rng.below(6)];
+                let k = g.rng.below(nmax + 2);
+                let cons = ["p", "t", "k", "n", "s"]; let start = g.rng.below(5);
+                let run: String = (0..k).map(|i| cons[(start + i) % 5]).collect();
+                let tgt = ["a", "i"][g.rng.below(2)]; let y = ["a", "i"][g.rng.below(2)];
+                let before = g.rng.chance(1, 3);
+                let t = if before { format!("{y}{run}{tgt}{}", if g.rng.chance(1, 2) { "t" } else { "" }) } else { format!("{}{tgt}{run}{y}", if g.rng.chance(1, 2) { "t" } else { "" }) };
+                match parse(&t) { Some(x) => w = x, None => continue }
+                let o = ["[+nasal]", "[+round]"][g.rng.below(2)];
+                let spec = format!("(C,{m}:{nmax})");
+                let s = if before { format!("{tgt} > {o} / {y} {spec} _") } else { format!("{tgt} > {o} / _ {spec} {y}") };
+                let alts: Vec<String> = (m..=nmax).map(|k| { let rep = vec!["C"; k].join(" "); if before { format!("{y} {rep} _") } else { format!("_ {rep} {y}") } }).collect();
+                (vec![s], vec![format!("{tgt} > {o} / :{{ {} }}:", alts.join(", "))], "optional")
+            }
             3 => { // optional = environment set of its explicit repetitions
                 let x = one(&mut g); let y = if g.rng.chance(2, 3) { let k = 1 + g.rng.below(3); (0..k).map(|_| inv[g.rng.below(4)].to_string()).collect::<Vec<_>>().join(" ") } else { String::new() };
                 let mut a = one(&mut g); let o = ["[+nasal]", "[+voice]"][g.rng.below(2)];
@@ -402,11 +417,14 @@ pub fn c12(args: &[String]) -> i32 {
         if !eq_outcome(&a, &b) {
             // which way the two differ is part of the identity of the finding: D12 makes the shorthand MISS matches when something follows the optional
             let has_remainder = short[0].split('/').nth(1).map_or(false, |e| { let e = e.trim(); !(e.starts_with('(') && e.ends_with("_")) && !(e.starts_with('_') && e.ends_with(')')) });
+            let rem_len = short[0].split('/').nth(1).map_or(0, |e| { let mut t = e.replace('_', " "); if let (Some(a), Some(b)) = (t.find('('), t.rfind(')')) { t.replace_range(a..=b, " "); } t.split_whitespace().count() });
             // positions rewritten by the shorthand / by the expansion (the rules here only change features, so positions correspond)
             let touched = |o: &Out<WordS>| -> Option<Vec<bool>> { match o { Out::Ok(r) => { let (x, y) = (segs_of(r), segs_of(&w)); if x.len() == y.len() { Some(x.iter().zip(&y).map(|(p, q)| p != q).collect()) } else { None } } _ => None } };
             let fam = if what == "optional" {
                 match (touched(&a), touched(&b)) {
-                    (Some(ta), Some(tb)) if ta.iter().zip(&tb).all(|(x, y)| !*x || *y) && has_remainder => ":optional:misses-with-remainder",
+                    // D12 needs a remainder that can match PARTLY (two or more elements); with one element a miss has another cause
+                    (Some(ta), Some(tb)) if ta.iter().zip(&tb).all(|(x, y)| !*x || *y) && has_remainder && rem_len >= 2 => ":optional:misses-with-remainder",
+                    (Some(ta), Some(tb)) if ta.iter().zip(&tb).all(|(x, y)| !*x || *y) => ":optional:misses",
                     (Some(ta), Some(tb)) if ta.iter().zip(&tb).all(|(x, y)| *x || !*y) => ":optional:fires-where-no-expansion-does",
                     _ => ":optional:other" }
             } else if what == "metathesis" { ":metathesis" } else { "" };
